@@ -47,6 +47,10 @@ def run_case(ctx, kind_, idx):
     if adaptive and which == "value_map":
         y = rng.integers(-6, 7, len(y)).astype(float)
         meta["ycls"] = "int"
+    if which != "weights":
+        x, y_arg, y = R.narrow_series(rng, x, y, meta)      # e.g. a float32 column: same values, narrower container
+    else:
+        y_arg = y
     info = R.brief(strat, x, y, n, kw, meta)
     info["relation"] = which
     ctx.count("relation:%s" % which)
@@ -54,7 +58,7 @@ def run_case(ctx, kind_, idx):
     loose = 100.0 if strat == "CubicSplineRFA" else 1.0
     try:
         with fp_watch(ctx):
-            xs, ys = R.run(strat, x, y, n, kw)
+            xs, ys = R.run(strat, x, y_arg, n, kw, rng=rng)
             if R.well_formed(xs, ys, len(x), n):
                 ctx.judged()
                 ctx.violation("malformed_output", cid, {"problem": R.well_formed(xs, ys, len(x), n), "case": info})
